@@ -48,7 +48,7 @@ func C17(c *Ctx) {
 	}
 	r.Floor("R17.1", "registered contracts", len(bvm.Contracts), 15)
 	r.Floor("R17.1", "dispatchable entries", nEntries, 590)
-	r.Floor("R17.1", "CrossInvoke sites", len(bvm.Edges), 140)
+	r.Floor("R17.1", "CrossInvoke sites", len(bvm.Edges), 120) // 145 on the pinned tree; merging duplicated call sites into a shared helper lowers the count
 	r.Count("functions summarised for effects", m.eff.Analysed())
 	r.Count("guard wrappers found", len(m.callerG.Wrappers()))
 	var wn []string
